@@ -373,6 +373,21 @@ Section Exec.
     end.
 End Exec.
 
+(** The kind of operation of the sub-query each step of a plan sends (planner.go: planObject / planUnion make
+    every step with Kind = query; planRoot marks the steps directly below the root of a mutation as mutations;
+    runOnService sends p.Kind).  [step_kinds root_kind depth p]: (depth, service, kind) for [p] and all steps
+    below it; the root of the plan (the coordinator) has depth 0. *)
+Definition kind_at (root_kind : string) (depth : nat) : string :=
+  match depth with 1 => root_kind | _ => "query" end.
+
+Fixpoint step_kinds (root_kind : string) (depth : nat) (p : plan) {struct p} : list (nat * string * string) :=
+  match p with
+  | Plan _ svc _ _ after =>
+      (depth, svc, kind_at root_kind depth) ::
+      (fix go (l : list plan) : list (nat * string * string) :=
+         match l with [] => [] | x :: t => step_kinds root_kind (S depth) x ++ go t end) after
+  end.
+
 (** The whole gateway: normalise, plan, execute, delete the _federation keys (Executor.Execute). *)
 Definition fed_exec_gen (prune : bool) (w : world) (g : gschema) (pick : list string -> option string)
            (dedupe repaired : bool) (q : list node) : option json :=
